@@ -88,7 +88,7 @@ Fixpoint lines_of (k : cfg) (chunks : list str) : list str :=
   | [] => []
   | c :: rest =>
       let n := N.of_nat (length rest) in
-      line_of k (if n =? 0 then c else c ++ suffix n n) :: lines_of k rest
+      line_of k (if n =? 0 then c else c ++ suffix k n n) :: lines_of k rest
   end.
 
 Lemma dec_go_no1 fuel : forall n acc, allc no1 acc = true -> allc no1 (dec_go fuel n acc) = true.
@@ -99,18 +99,22 @@ Proof.
   destruct (n / 10 =? 0); [exact H1|apply IH; exact H1].
 Qed.
 
-Lemma suffix_no1 i n : allc no1 (suffix i n) = true.
+(* the translated words contain no \x01 *)
+Definition words_ok (k : cfg) : bool := allc no1 (c_one k) && allc no1 (c_many k).
+
+Lemma suffix_no1 k i n : words_ok k = true -> allc no1 (suffix k i n) = true.
 Proof.
+  intro H. apply andb_true_iff in H as [H1 H2].
   unfold suffix. rewrite !allc_app. unfold dec. rewrite (dec_go_no1 _ n [] eq_refl).
-  destruct (i =? 1); reflexivity.
+  destruct (i =? 1); rewrite ?H1, ?H2; reflexivity.
 Qed.
 
-Lemma annot_lines k : forall chunks,
+Lemma annot_lines k : words_ok k = true -> forall chunks,
   Forall (fun c => allc no1 c = true /\ c <> []) chunks -> annot k 0 chunks = lines_of k chunks.
 Proof.
-  induction 1 as [|c rest [Hc Hne] _ IH]; [reflexivity|]. cbn [annot lines_of Nat.add]. rewrite IH. f_equal.
+  intro Hw. induction 1 as [|c rest [Hc Hne] _ IH]; [reflexivity|]. cbn [annot lines_of Nat.add]. rewrite IH. f_equal.
   destruct (N.of_nat (length rest) =? 0); [apply makeReply_line; assumption|].
-  apply makeReply_line; [rewrite allc_app, Hc, suffix_no1; reflexivity|destruct c; [congruence|discriminate]].
+  apply makeReply_line; [rewrite allc_app, Hc, (suffix_no1 k _ _ Hw); reflexivity|destruct c; [congruence|discriminate]].
 Qed.
 
 (* ---------- a payload within the room: the line fits and takeMsg leaves it alone ---------- *)
@@ -133,20 +137,20 @@ Proof.
   split; [exact Hf|apply (fits_untruncated k); exact Hf].
 Qed.
 
-Lemma annot_good k (budget : Z) : forall chunks,
-  (length chunks <= 100)%nat -> (budget + Z.of_N gen.T12.MORE_RESERVE <= line_room k)%Z ->
+Lemma annot_good k (budget : Z) : words_ok k = true -> forall chunks,
+  (length chunks <= 100)%nat -> (budget + Z.of_N (more_reserve k) <= line_room k)%Z ->
   Forall (fun c => allc no1 c = true /\ c <> [] /\ (Z.of_N (blen c) <= budget)%Z) chunks ->
   Forall (good_line k) (annot k 0 chunks).
 Proof.
-  intros chunks Hlen Hb Hall. induction Hall as [|c rest (H1 & Hne & Hc) _ IH]; [constructor|].
+  intros Hw chunks Hlen Hb Hall. induction Hall as [|c rest (H1 & Hne & Hc) _ IH]; [constructor|].
   cbn [length] in Hlen. cbn [annot Nat.add]. constructor; [|apply IH; lia].
   destruct (N.of_nat (length rest) =? 0) eqn:E.
-  - apply payload_good; try assumption. rewrite T_reserve in Hb. lia.
+  - apply payload_good; try assumption. lia.
   - apply payload_good.
-    + rewrite allc_app, H1, suffix_no1. reflexivity.
+    + rewrite allc_app, H1, (suffix_no1 k _ _ Hw). reflexivity.
     + destruct c; [congruence|discriminate].
     + rewrite blen_app.
-      pose proof (suffix_reserve_on_domain (N.of_nat (length rest)) ltac:(lia)). lia.
+      pose proof (suffix_reserve_on_domain k (N.of_nat (length rest)) ltac:(lia)). lia.
 Qed.
 
 (* ---------- pieces ---------- *)
@@ -158,13 +162,13 @@ Proof.
 Qed.
 
 (* ---------- the domain ---------- *)
-(* plain non-empty text; splitting switched on; at least one chunk allowed; the chunk budget is at
+(* the translated 'more message(s)' words contain no \x01; plain non-empty text; splitting switched on; at least one chunk allowed; the chunk budget is at
    least 4 bytes after the reserve (byteTextWrap terminates) and not larger than the room of the line
    (always true when mores.length = 0); at most 99 messages pending (the "(XX more messages)" text
    provides for two digits). *)
 Definition plain_dom (k : cfg) (s0 : str) : bool :=
-  plain_text s0 && nonempty s0 && c_mores k && (1 <=? c_maximum k) &&
-  (25 <=? allowed_length k)%Z && (allowed_length k <=? line_room k)%Z &&
+  words_ok k && plain_text s0 && nonempty s0 && c_mores k && (1 <=? c_maximum k) &&
+  (4 + Z.of_N (more_reserve k) <=? allowed_length k)%Z && (allowed_length k <=? line_room k)%Z &&
   match reply_chunks k s0 with Ok chunks => (length chunks <=? 100)%nat | Raise _ => true end.
 
 Lemma reply_text_firstn k s0 :
@@ -198,7 +202,8 @@ Theorem reply_plain_end_to_end : forall k s0 sent L number times,
 Proof.
   intros k s0 sent L number times Hdom Hr Hn Hl lines text.
   unfold plain_dom in Hdom. repeat (apply andb_true_iff in Hdom as [Hdom ?]).
-  rename H into Hcount, H0 into Hroom, H1 into H25, H2 into Hmax, H3 into Hmores, H4 into Hne0, Hdom into Hplain.
+  rename H into Hcount, H0 into Hroom, H1 into H25, H2 into Hmax, H3 into Hmores, H4 into Hne0, H5 into Hplain.
+  assert (Hwords : words_ok k = true) by (unfold words_ok; rewrite Hdom, H6; reflexivity).
   apply Z.leb_le in Hroom, H25. apply N.leb_le in Hmax.
   destruct (more_sequence k s0 sent L number times Hr Hn Hl) as (chunks & Hc & Hlines).
   rewrite Hc in Hcount. apply Nat.leb_le in Hcount.
@@ -217,21 +222,21 @@ Proof.
     - injection Hc as <-. apply Z.leb_le in Efit. split; [constructor; [split; assumption|constructor]|].
       split; [|left; reflexivity]. cbn [annot length Nat.add N.of_nat N.eqb]. constructor; [|constructor].
       apply payload_good; try assumption. lia.
-    - destruct (wrap_plain text (allowed_length k - Z.of_N gen.T12.MORE_RESERVE) Htf Hsur) as (ls & Hw & Hb & Hf & Hcat & Hnil).
-      { rewrite T_reserve. lia. }
+    - destruct (wrap_plain text (allowed_length k - Z.of_N (more_reserve k)) Htf Hsur) as (ls & Hw & Hb & Hf & Hcat & Hnil).
+      { lia. }
       rewrite Hw in Hc. injection Hc as <-.
       assert (H1 : Forall (fun c => allc no1 c = true) ls) by exact (byteTextWrap_allc no1 eq_refl text _ ls Ht1 Hb).
       specialize (Hnil Htne).
       assert (Hall : Forall (fun c => allc no1 c = true /\ c <> [] /\
-                     (Z.of_N (blen c) <= allowed_length k - Z.of_N gen.T12.MORE_RESERVE)%Z) ls).
+                     (Z.of_N (blen c) <= allowed_length k - Z.of_N (more_reserve k))%Z) ls).
       { rewrite Forall_forall in *. intros c Hin. specialize (H1 c Hin). specialize (Hnil c Hin). specialize (Hf c Hin).
         cbv beta in Hf. rewrite <- utf8_len. repeat split; try assumption. lia. }
       split; [eapply Forall_impl; [|exact Hall]; intros c (A & B & _); split; assumption|].
-      split; [apply (annot_good k (allowed_length k - Z.of_N gen.T12.MORE_RESERVE)); [exact Hcount|lia|exact Hall]|].
+      split; [apply (annot_good k (allowed_length k - Z.of_N (more_reserve k))); [exact Hwords|exact Hcount|lia|exact Hall]|].
       right. exact Hcat. }
   destruct Hgoal as (Hch & Hgood & Hb).
   exists chunks. unfold lines. rewrite Hlines.
-  split; [apply annot_lines; exact Hch|]. split; [exact Hgood|]. split; [exact Hb|].
+  split; [apply (annot_lines k Hwords); exact Hch|]. split; [exact Hgood|]. split; [exact Hb|].
   split; [|split; [exists m; exact Hm|exact Hfull]].
   intros c Hin. split; [|apply in_concat_piece; exact Hin].
   rewrite Forall_forall in Hch. exact (proj2 (Hch c Hin)).
@@ -242,7 +247,7 @@ Theorem reply_plain_total : forall k s0,
   plain_dom k s0 = true -> has_surrogate s0 = false -> exists sent L, reply k s0 = Ok (sent, L).
 Proof.
   intros k s0 Hdom Hsur0. unfold plain_dom in Hdom. repeat (apply andb_true_iff in Hdom as [Hdom ?]).
-  rename H0 into Hroom, H1 into H25, H2 into Hmax, H3 into Hmores, H4 into Hne0, Hdom into Hplain.
+  rename H0 into Hroom, H1 into H25, H2 into Hmax, H3 into Hmores, H4 into Hne0, H5 into Hplain.
   apply Z.leb_le in Hroom, H25.
   destruct (reply_text_firstn k s0 ltac:(lia)) as (m & Hm & _ & _).
   assert (Hsur : has_surrogate (reply_text k s0) = false).
@@ -251,15 +256,15 @@ Proof.
   { apply plain_text_no_fmt. rewrite Hm. apply (allc_firstn plain_c). exact Hplain. }
   unfold reply. fold (reply_text k s0). rewrite Hsur.
   destruct ((Z.of_N (blen (reply_text k s0)) <=? allowed_length k)%Z || negb (c_mores k)); [eexists; eexists; reflexivity|].
-  destruct (wrap_plain (reply_text k s0) (allowed_length k - Z.of_N gen.T12.MORE_RESERVE) Htf Hsur) as (ls & Hw & _).
-  { rewrite T_reserve. lia. }
+  destruct (wrap_plain (reply_text k s0) (allowed_length k - Z.of_N (more_reserve k)) Htf Hsur) as (ls & Hw & _).
+  { lia. }
   rewrite Hw. cbn [bind].
   destruct (instant_loop _ _ _ _) as [msgs1 sent1]. destruct (pop msgs1) as [[m1 L1]|]; eexists; eexists; reflexivity.
 Qed.
 
 (* ---------- (4) non-vacuity: a 1200-byte multi-byte text, in the domain, split into 3 chunks ---------- *)
 Definition k_demo : cfg :=                     (* bot b!u@h answers nick "a" in channel #c, default settings *)
-  Cfg [98; 33; 117; 64; 104] [35; 99] [97] true true true true 0 50 1 false false None false false false.
+  Cfg [98; 33; 117; 64; 104] [35; 99] [97] true true true true 0 50 1 false false None false false false gen.T12.MORE_ONE gen.T12.MORE_MANY.
 Definition s_demo : str := concat (repeat [8364; 8364; 8364; 8364; 8364; 32] 75).    (* 75 x "€€€€€ " *)
 
 Example end_to_end_nonvacuous :
